@@ -82,7 +82,7 @@ class CHECK(Check):
                 out.append((d, 's0p', s))
             seen = set(pairs)
             for table in (0, 1) + ((2,) if thorough else ()):
-                for s in f.s0_pairs(table=table) + f.s0_triples(table=table):
+                for s in f.s0_pairs(table=table) + f.s0_triples(table=table) + (f.s0_sibling_pairs(table=table) if table == 0 or thorough else []):
                     if s not in seen:
                         seen.add(s)
                         out.append((d, 's0t', s))
